@@ -1,26 +1,28 @@
-"""Translator for C05: regenerates, from the working tree's source, the table-like facts the C05 theorems rest on.
+"""Translator for C05: regenerates, from the tree under test, the facts the C05 theorems rest on.
 
- (i)   phases       interfaces.py PHASEn_CONFIG constants; the `order=` of every `self.action(...)` call made by
-                    set_security_policy / set_authentication_policy / set_authorization_policy /
-                    set_default_permission / add_view / add_route / add_view_deriver, resolved through the
-                    constants (absent => the default of `order` in config/actions.py `action`)
- (ii)  call sites   every occurrence, in src/pyramid/**/*.py, of `__call_permissive__` (attribute or string),
-                    of a call to `_call_view` / `render_view_to_response` / `render_view_to_iterable` /
-                    `render_view` / `invoke_exception_view`, and of a call keyword `secure=False`, each with its
-                    enclosing function, the value passed for `secure`, and the enclosing `if` tests
- (iii) shape        of viewderivers._secured_view: the permission defaulting preamble, `permitted` asking
-                    `policy.permits(request, context, permission)`, the inner view called only under `if result:`,
-                    HTTPForbidden raised otherwise, `__call_permissive__` bound to the inner view
-                    (local names are alpha-normalised, so renaming a local does not change the output);
-                    and of MultiView.__call__ / __permitted__ / __call_permissive__
- (iv)  directives   add_forbidden_view / add_notfound_view / add_exception_view force
-                    permission=NO_PERMISSION_REQUIRED + exception_only=True and reject a `permission` argument;
-                    StaticURLInfo.add defaults permission to NO_PERMISSION_REQUIRED
+BEHAVIOURAL tables — obtained by RUNNING the code of the tree under test over a finite domain (extract/c05_probe.py,
+a subprocess with that tree first on sys.path), so they survive any refactoring that preserves behaviour and change
+under any that does not:
+ (A) the default deriver pipeline: hints recorded by add_view_deriver, the sorter's output, and the wrapping order
+     observed by replacing every deriver with a tracer and calling a derived view
+ (B) viewderivers.secured_view over permission x exception_only x default permission x policy (9 answer styles)
+ (C) view._call_view over 0..2 found callables x {response, PredicateMismatch, HTTPForbidden} x permissive handle x secure
+ (D) MultiView.__call__ / __call_permissive__ / __permitted__ over 0..2 constituents x predicate x secured/granted/refused
+ (E) tweens.excview_tween_factory + Request.invoke_exception_view over the exception view's behaviour x permissive handle
+ (F) the `order` of the action whose EXECUTION produces each directive's effect (policy / default permission / view /
+     route interface / deriver registered), and the PHASEn_CONFIG constants
+ (G) add_forbidden_view / add_notfound_view / add_exception_view / add_static_view under a policy + default permission:
+     derived callable unguarded?, exception_only?, `permission=` rejected?
+ (H) the default of every `secure` parameter (inspect.signature)
+STRUCTURAL facts — python `ast` (cannot be observed by running: they are about every place in the tree):
+ (S) every call of _call_view / render_view_to_response / render_view_to_iterable / render_view / invoke_exception_view,
+     every occurrence of `__call_permissive__`, every `secure=False` keyword, with file, enclosing function, the value
+     given for `secure`, and (inside `_call_view`) the enclosing tests normalised to `X=true/false`; sorted.
 
-Anything that does not have the expected shape is emitted as "unknown" (or an impossible phase), which makes
-the `decide`d obligations in Props/C05.lean fail.
+Every probe fails closed: an exception, a foreign `pyramid` on the path, or an unexpected value yields an empty /
+"unknown" table and the `decide`d obligations in Props/C05.lean fail.
 """
-import ast, os
+import ast, json, os, subprocess, sys
 
 summary = {}
 UNKNOWN_PHASE = 99999
@@ -30,100 +32,6 @@ VIEW_CALLERS = ('_call_view', 'render_view_to_response', 'render_view_to_iterabl
 SECURE_POS = {'_call_view': 7, 'render_view_to_response': 3, 'render_view_to_iterable': 3, 'render_view': 3,
               'invoke_exception_view': 2}
 
-
-def _read(root, rel):
-    p = os.path.join(root, 'pyramid', rel)
-    src = open(p).read()
-    return src, ast.parse(src)
-
-
-def _find_func(tree, cls, name):
-    for n in ast.walk(tree):
-        if cls is None:
-            if isinstance(n, ast.Module):
-                for f in n.body:
-                    if isinstance(f, ast.FunctionDef) and f.name == name:
-                        return f
-        elif isinstance(n, ast.ClassDef) and n.name == cls:
-            for f in n.body:
-                if isinstance(f, ast.FunctionDef) and f.name == name:
-                    return f
-    return None
-
-
-# ---------------------------------------------------------------------------------------------- (i) phases
-
-def phase_constants(root):
-    src, tree = _read(root, 'interfaces.py')
-    out = {}
-    for st in tree.body:
-        if isinstance(st, ast.Assign) and len(st.targets) == 1 and isinstance(st.targets[0], ast.Name):
-            nm = st.targets[0].id
-            if nm.startswith('PHASE') and nm.endswith('_CONFIG'):
-                try:
-                    out[nm] = int(ast.literal_eval(st.value))
-                except Exception:
-                    out[nm] = UNKNOWN_PHASE
-    return out
-
-
-def action_default_order(root):
-    src, tree = _read(root, 'config/actions.py')
-    f = _find_func(tree, 'ActionConfiguratorMixin', 'action')
-    if f is None:
-        return UNKNOWN_PHASE
-    args = f.args.args
-    defaults = f.args.defaults
-    named = dict(zip([a.arg for a in args[len(args) - len(defaults):]], defaults))
-    d = named.get('order')
-    if isinstance(d, ast.Constant) and isinstance(d.value, int):
-        return d.value
-    return UNKNOWN_PHASE
-
-
-def directive_orders(root, consts, default_order):
-    """for each directive: the list of resolved `order` values of its self.action(...) calls"""
-    table = [('set_security_policy', 'config/security.py', 'SecurityConfiguratorMixin'),
-             ('set_authentication_policy', 'config/security.py', 'SecurityConfiguratorMixin'),
-             ('set_authorization_policy', 'config/security.py', 'SecurityConfiguratorMixin'),
-             ('set_default_permission', 'config/security.py', 'SecurityConfiguratorMixin'),
-             ('add_view', 'config/views.py', 'ViewsConfiguratorMixin'),
-             ('add_view_deriver', 'config/views.py', 'ViewsConfiguratorMixin'),
-             ('add_route', 'config/routes.py', 'RoutesConfiguratorMixin')]
-    out = []
-    for name, rel, cls in table:
-        try:
-            src, tree = _read(root, rel)
-            f = _find_func(tree, cls, name)
-        except Exception:
-            f = None
-        orders = []
-        registers = []
-        if f is not None:
-            for n in ast.walk(f):
-                if (isinstance(n, ast.Call) and isinstance(n.func, ast.Attribute) and n.func.attr == 'action'
-                        and isinstance(n.func.value, ast.Name) and n.func.value.id == 'self'):
-                    kw = {k.arg: k.value for k in n.keywords}
-                    o = kw.get('order')
-                    if o is None and len(n.args) >= 5:
-                        o = n.args[4]
-                    if o is None:
-                        val = default_order
-                    elif isinstance(o, ast.Name):
-                        val = consts.get(o.id, UNKNOWN_PHASE)
-                    elif isinstance(o, ast.Constant) and isinstance(o.value, int):
-                        val = o.value
-                    else:
-                        val = UNKNOWN_PHASE
-                    cal = n.args[1] if len(n.args) > 1 else kw.get('callable')
-                    orders.append((val, ast.unparse(cal) if cal is not None else 'None'))
-        if not orders:
-            orders = [(UNKNOWN_PHASE, 'unknown')]
-        out.append((name, orders))
-    return out
-
-
-# ------------------------------------------------------------------------------------------ (ii) call sites
 
 class _Sites(ast.NodeVisitor):
     def __init__(self, rel):
@@ -149,16 +57,31 @@ class _Sites(ast.NodeVisitor):
 
     visit_AsyncFunctionDef = visit_FunctionDef
 
+    @staticmethod
+    def _norm(test, branch):
+        """`if not X:` body == the else-branch of `if X:`; both are written  X=false"""
+        while isinstance(test, ast.UnaryOp) and isinstance(test.op, ast.Not):
+            test, branch = test.operand, not branch
+        return '%s=%s' % (ast.unparse(test), 'true' if branch else 'false')
+
     def visit_If(self, n):
         self.visit(n.test)
-        t = ast.unparse(n.test)
-        self.ifs.append('if ' + t)
+        self.ifs.append(self._norm(n.test, True))
         for s in n.body:
             self.visit(s)
         self.ifs.pop()
-        self.ifs.append('else ' + t)
+        self.ifs.append(self._norm(n.test, False))
         for s in n.orelse:
             self.visit(s)
+        self.ifs.pop()
+
+    def visit_IfExp(self, n):
+        self.visit(n.test)
+        self.ifs.append(self._norm(n.test, True))
+        self.visit(n.body)
+        self.ifs.pop()
+        self.ifs.append(self._norm(n.test, False))
+        self.visit(n.orelse)
         self.ifs.pop()
 
     def visit_Attribute(self, n):
@@ -220,226 +143,33 @@ def call_sites(root):
             v = _Sites(rel)
             v.visit(tree)
             out += v.out
-    return out
+    return sorted(set(out))
 
 
-def secure_defaults(root):
-    """the default value of the `secure` parameter of each view-calling function"""
-    src, tree = _read(root, 'view.py')
-    out = []
-    for name, cls in (('_call_view', None), ('render_view_to_response', None), ('render_view_to_iterable', None),
-                      ('render_view', None), ('invoke_exception_view', 'ViewMethodsMixin')):
-        f = _find_func(tree, cls, name)
-        val = 'unknown'
-        if f is not None:
-            args = f.args.args
-            defaults = f.args.defaults
-            named = dict(zip([a.arg for a in args[len(args) - len(defaults):]], defaults))
-            if 'secure' in named:
-                val = ast.unparse(named['secure'])
-        out.append((name, val))
-    return out
 
+def run_probes(root):
+    here = os.path.dirname(os.path.abspath(__file__))
+    env = dict(os.environ)
+    env['PYTHONPATH'] = root + os.pathsep + env.get('PYTHONPATH', '')
+    try:
+        p = subprocess.run([sys.executable, os.path.join(here, 'c05_probe.py'), root], stdout=subprocess.PIPE,
+                           stderr=subprocess.PIPE, timeout=120, env=env)
+        return json.loads(p.stdout.decode())
+    except Exception as e:
+        return {'own_tree': False, 'errors': {'probe': '%s: %s' % (type(e).__name__, e)}}
 
-# -------------------------------------------------------------------------------------------- (iii) shapes
-
-class _Alpha(ast.NodeTransformer):
-    """mark every locally bound name (parameters, assigned names, inner function names, `except … as` names) as
-    §name§; `shape_of` then numbers them v0, v1, … in order of first occurrence in the EMITTED text, so that the
-    shape depends neither on the spelling of locals nor on the order of independent initialisations"""
-
-    def __init__(self, func):
-        self.names = set()
-        for n in ast.walk(func):
-            if isinstance(n, ast.FunctionDef):
-                if n is not func:
-                    self.names.add(n.name)
-                for a in n.args.args:
-                    self.names.add(a.arg)
-            elif isinstance(n, ast.Name) and isinstance(n.ctx, ast.Store):
-                self.names.add(n.id)
-            elif isinstance(n, ast.ExceptHandler) and n.name:
-                self.names.add(n.name)
-
-    def mark(self, nm):
-        return '\u00a7%s\u00a7' % nm if nm in self.names else nm
-
-    def visit_Name(self, n):
-        return ast.copy_location(ast.Name(id=self.mark(n.id), ctx=n.ctx), n)
-
-    def visit_arg(self, n):
-        n.arg = self.mark(n.arg)
-        return n
-
-    def visit_FunctionDef(self, n):
-        n.name = self.mark(n.name)
-        self.generic_visit(n)
-        return n
-
-    def visit_ExceptHandler(self, n):
-        if n.name:
-            n.name = self.mark(n.name)
-        self.generic_visit(n)
-        return n
-
-
-def _strip_doc(body):
-    if body and isinstance(body[0], ast.Expr) and isinstance(body[0].value, ast.Constant) and isinstance(body[0].value.value, str):
-        return body[1:]
-    return body
-
-
-def shape_of(func, cut_loop=False):
-    """alpha-normalised statements of a function; runs of attribute assignments are sorted by attribute name;
-    with cut_loop only the first top-level `for` statement is kept"""
-    if func is None:
-        return ['unknown']
-    import copy, re
-    f = copy.deepcopy(func)
-    f = _Alpha(f).visit(f)
-    ast.fix_missing_locations(f)
-    out = ['def(' + ','.join(a.arg for a in f.args.args) + ')']
-
-    def emit(stmts, indent):
-        run = []
-
-        def flush():
-            for _, s in sorted(run):
-                out.append(indent + s)
-            run.clear()
-        for st in _strip_doc(stmts):
-            if isinstance(st, ast.Assign) and len(st.targets) == 1 and isinstance(st.targets[0], ast.Attribute):
-                run.append((st.targets[0].attr, ast.unparse(st)))
-                continue
-            flush()
-            if isinstance(st, ast.FunctionDef):
-                out.append(indent + 'def %s(%s):' % (st.name, ','.join(a.arg for a in st.args.args)))
-                emit(st.body, indent + '  ')
-            elif isinstance(st, ast.If):
-                out.append(indent + 'if ' + ast.unparse(st.test) + ':')
-                emit(st.body, indent + '  ')
-                if st.orelse:
-                    out.append(indent + 'else:')
-                    emit(st.orelse, indent + '  ')
-            elif isinstance(st, ast.For):
-                out.append(indent + 'for ' + ast.unparse(st.target) + ' in ' + ast.unparse(st.iter) + ':')
-                emit(st.body, indent + '  ')
-            elif isinstance(st, ast.Try):
-                out.append(indent + 'try:')
-                emit(st.body, indent + '  ')
-                for h in st.handlers:
-                    out.append(indent + 'except ' + (ast.unparse(h.type) if h.type else '') + (' as ' + h.name if h.name else '') + ':')
-                    emit(h.body, indent + '  ')
-            else:
-                out.append(indent + ast.unparse(st).replace('\n', ' '))
-        flush()
-    emit(f.body, '')
-    if cut_loop:
-        start = next((i for i, l in enumerate(out) if l.startswith('for ')), None)
-        if start is None:
-            return ['unknown']
-        end = next((i for i in range(start + 1, len(out)) if not out[i].startswith(' ')), len(out))
-        out = out[start:end]
-    numbering = {}
-
-    def number(m):
-        nm = m.group(1)
-        if nm not in numbering:
-            numbering[nm] = 'v%d' % len(numbering)
-        return numbering[nm]
-    return [re.sub('\u00a7(\\w+)\u00a7', number, l) for l in out]
-
-
-def shapes(root):
-    src, tree = _read(root, 'viewderivers.py')
-    out = {'_secured_view': shape_of(_find_func(tree, None, '_secured_view')),
-           'secured_view': shape_of(_find_func(tree, None, 'secured_view'))}
-    src, tree = _read(root, 'config/views.py')
-    for m in ('__call__', '__permitted__', '__call_permissive__', 'match'):
-        out['MultiView.' + m] = shape_of(_find_func(tree, 'MultiView', m))
-    src, tree = _read(root, 'view.py')
-    f = _find_func(tree, None, '_call_view')
-    # only the loop of _call_view (the lookup part is C03's)
-    out['_call_view.loop'] = shape_of(f, cut_loop=True)
-    src, tree = _read(root, 'tweens.py')
-    out['_error_handler'] = shape_of(_find_func(tree, None, '_error_handler'))
-    return out
-
-
-# ------------------------------------------------------------------------------------- (iv) special directives
-
-def _is_npr(node):
-    return isinstance(node, ast.Name) and node.id == 'NO_PERMISSION_REQUIRED'
-
-
-def special_directives(root):
-    src, tree = _read(root, 'config/views.py')
-    out = []
-    for name in ('add_forbidden_view', 'add_notfound_view', 'add_exception_view'):
-        f = _find_func(tree, 'ViewsConfiguratorMixin', name)
-        forced, rejects, exc_only, update_ok = 'unknown', False, False, False
-        if f is not None:
-            # the rejection loop: for arg in (... 'permission' ...): if arg in view_options: raise ConfigurationError
-            for n in ast.walk(f):
-                if isinstance(n, ast.For) and isinstance(n.iter, ast.Tuple):
-                    vals = [e.value for e in n.iter.elts if isinstance(e, ast.Constant)]
-                    raises = any(isinstance(x, ast.Raise) for x in ast.walk(n))
-                    if 'permission' in vals and raises:
-                        rejects = True
-            # dict(... permission=NO_PERMISSION_REQUIRED, exception_only=True ...)
-            dict_line = None
-            for n in ast.walk(f):
-                if isinstance(n, ast.Call) and isinstance(n.func, ast.Name) and n.func.id == 'dict':
-                    kw = {k.arg: k.value for k in n.keywords}
-                    if 'permission' in kw:
-                        forced = 'NO_PERMISSION_REQUIRED' if _is_npr(kw['permission']) else 'unknown'
-                        eo = kw.get('exception_only')
-                        exc_only = isinstance(eo, ast.Constant) and eo.value is True
-                        dict_line = n.lineno
-            # whatever is merged over the dict afterwards comes from view_options, which may not hold `permission`
-            ends_in_add_view = False
-            last = f.body[-1]
-            if isinstance(last, ast.Return) and isinstance(last.value, ast.Call) and getattr(last.value.func, 'attr', None) == 'add_view':
-                ends_in_add_view = True
-            # no later assignment to settings['permission'] / view_options['permission']
-            later = False
-            for n in ast.walk(f):
-                if isinstance(n, ast.Subscript) and isinstance(n.ctx, ast.Store) and isinstance(n.slice, ast.Constant) and n.slice.value == 'permission':
-                    later = True
-            update_ok = ends_in_add_view and not later and dict_line is not None
-        if not update_ok:
-            forced = 'unknown'
-        out.append((name, forced, rejects, exc_only))
-    # static views
-    f = _find_func(tree, 'StaticURLInfo', 'add')
-    forced = 'unknown'
-    if f is not None:
-        s = ast.unparse(f).replace(' ', '').replace('\n', '')
-        if ("permission=extra.pop('permission',None)ifpermissionisNone:permission=NO_PERMISSION_REQUIRED" in s
-                and 'permission=permission' in s):
-            forced = 'NO_PERMISSION_REQUIRED'
-    out.append(('add_static_view', forced, False, False))
-    return out
-
-
-# --------------------------------------------------------------------------------------------------- output
 
 def facts(root):
-    consts = phase_constants(root)
-    dflt = action_default_order(root)
-    out = {'phase_constants': sorted(consts.items()), 'action_default_order': dflt,
-           'directive_orders': directive_orders(root, consts, dflt),
-           'call_sites': call_sites(root), 'secure_defaults': secure_defaults(root),
-           'shapes': shapes(root), 'special_directives': special_directives(root)}
+    pr = run_probes(root)
+    out = {'probes': pr, 'call_sites': call_sites(root)}
     summary.clear()
-    summary.update({'directive_orders': {k: [o for o, _ in v] for k, v in out['directive_orders']},
-                    'call_sites': len(out['call_sites']), 'special_directives': out['special_directives']})
+    summary.update({'own_tree': pr.get('own_tree'), 'probe_errors': pr.get('errors'),
+                    'rows': {k: (len(pr[k]) if isinstance(pr.get(k), list) else None)
+                             for k in ('secured', 'call_view', 'multiview', 'tween')},
+                    'wrapping': (pr.get('chain') or {}).get('wrapping'),
+                    'phases': {k: v.get('effect') for k, v in ((pr.get('phases') or {}).get('directives') or {}).items()},
+                    'call_sites': len(out['call_sites'])})
     return out
-
-
-SHAPE_NAMES = {'_secured_view': 'shapeSecuredInner', 'secured_view': 'shapeSecuredDeriver', 'MultiView.__call__': 'shapeMultiCall',
-               'MultiView.__permitted__': 'shapeMultiPermitted', 'MultiView.__call_permissive__': 'shapeMultiPermissive',
-               'MultiView.match': 'shapeMultiMatch', '_call_view.loop': 'shapeCallViewLoop', '_error_handler': 'shapeErrorHandler'}
 
 
 def _lstr(s):
@@ -450,54 +180,120 @@ def _lint(i):
     return '(%d)' % i if i < 0 else str(i)
 
 
-def _c18_generate(root):
-    """the default deriver chain with its under/over hints is extracted by the C18 translator; C05's theorems
-    (`secured_outermost`) are stated over it, so a C05 check regenerates that file as well (same content)"""
-    import importlib.util
-    here = os.path.dirname(os.path.abspath(__file__))
-    spec = importlib.util.spec_from_file_location('extract_c18_for_c05', os.path.join(here, 'c18.py'))
-    m = importlib.util.module_from_spec(spec)
-    spec.loader.exec_module(m)
-    return m.generate(root)
+def _lbool(b):
+    return 'true' if b else 'false'
+
+
+def _lnats(l):
+    return '[' + ', '.join(str(int(x)) for x in l) + ']'
+
+
+def _lstrs(l):
+    return '[' + ', '.join(_lstr(x) for x in l) + ']'
+
+
+def _out(o):
+    """outcome code: resp t -> [0,t]; none -> [1]; mismatch -> [2]; raised k -> [3,k]; perm b -> [4,b]; else [9]"""
+    try:
+        if o[0] == 'resp':
+            return [0, int(o[1])]
+        if o[0] == 'none':
+            return [1]
+        if o[0] == 'mismatch':
+            return [2]
+        if o[0] == 'raised':
+            return [3, int(o[1])]
+        if o[0] == 'perm':
+            return [4, 1 if o[1] else 0]
+    except Exception:
+        pass
+    return [9]
 
 
 def generate(root):
     f = facts(root)
-    out = _generate_c05(f)
-    out.update(_c18_generate(root))
-    return out
-
-
-def _generate_c05(f):
-    L = ['/-! GENERATED by extract/c05.py from src/pyramid — do not edit. -/', 'namespace Pyr.Gen.C05', '',
+    pr = f['probes']
+    L = ['/-! GENERATED by extract/c05.py (+ extract/c05_probe.py run on the tree under test) — do not edit. -/',
+         'namespace Pyr.Gen.C05', '',
          'structure CallSite where', '  file : String', '  func : String', '  what : String', '  arg : String', '  guard : String',
          'deriving Repr, DecidableEq', '',
-         '/-- `PHASEn_CONFIG` constants of interfaces.py -/',
-         'def phaseConstants : List (String × Int) := [' + ', '.join('(%s, %s)' % (_lstr(k), _lint(v)) for k, v in f['phase_constants']) + ']',
-         '/-- default of `order` in `Configurator.action` -/',
-         'def actionDefaultOrder : Int := ' + _lint(f['action_default_order']), '',
-         '/-- for each directive, the resolved `order` and the callable of every `self.action(...)` it issues -/',
-         'def directiveOrders : List (String × List (Int × String)) := [']
-    L += ['  (%s, [%s]),' % (_lstr(k), ', '.join('(%s, %s)' % (_lint(o), _lstr(c)) for o, c in v)) for k, v in f['directive_orders']]
+         '/-- one run of `secured_view(view, info)`: perm/dflt 0 absent, 1 a name, 2 the marker; guard 0 none, 1 the explicit',
+         'name, 2 the default name; trace 10/11 = permits(request, context, explicit/default name), 19 = permits with other',
+         'arguments, 20 = body; outcome 0 response, 1 HTTPForbidden; permitted 0/1 = `__permitted__` answer, 2 = no such attribute -/',
+         'structure SecuredRow where', '  perm : Nat', '  excOnly : Bool', '  dflt : Nat', '  policy : Bool', '  truthy : Bool',
+         '  guard : Nat', '  permissiveInner : Bool', '  trace : List Nat', '  outcome : Nat', '  permitted : Nat',
+         'deriving Repr, DecidableEq', '',
+         '/-- `_call_view`: views = (kind 0 response / 1 PredicateMismatch / 2 HTTPForbidden, has permissive handle); events = i for',
+         'the i-th callable itself, 100+i for its permissive handle; outcome coded [0,t] resp, [1] None, [2] PredicateMismatch, [3,k] raised -/',
+         'structure CallViewRow where', '  views : List (Nat × Bool)', '  secure : Bool', '  events : List Nat', '  out : List Nat',
+         'deriving Repr, DecidableEq', '',
+         '/-- MultiView: views = (predicate 0 none / 1 true / 2 false, 0 unsecured / 1 secured+granted / 2 secured+refused); events',
+         '100+i = body of the i-th, 200+i = the policy asked for the i-th -/',
+         'structure MultiRow where', '  views : List (Nat × Nat)', '  callEv : List Nat', '  callOut : List Nat',
+         '  permEv : List Nat', '  permOut : List Nat', '  pmtEv : List Nat', '  pmtOut : List Nat',
+         'deriving Repr, DecidableEq', '']
+    # (A)
+    ch = pr.get('chain') or {}
+    hints = ch.get('hints') or []
+    L += ['/-- (name, under, over) as recorded by `add_view_deriver` for the default derivers, in registration order -/',
+          'def probedHints : List (String × List String × List String) := [' +
+          ', '.join('(%s, %s, %s)' % (_lstr(n), _lstrs(u), _lstrs(o)) for n, u, o in hints) + ']',
+          '/-- names of `registry.getUtility(IViewDerivers).sorted()` -/',
+          'def probedSorted : List String := ' + _lstrs(ch.get('sorted') or ['unknown']),
+          '/-- the order in which tracing derivers are ENTERED when a derived view is called: outermost first -/',
+          'def probedWrapping : List String := ' + _lstrs(ch.get('wrapping') or ['unknown']), '']
+    # (B)
+    rows = pr.get('secured') or []
+    L += ['def securedProbe : List SecuredRow := [']
+    L += ['  ⟨%d, %s, %d, %s, %s, %d, %s, %s, %d, %d⟩,' % (r['perm'], _lbool(r['exc_only']), r['dflt'], _lbool(r['policy']), _lbool(r['truthy']),
+                                                            r['guard'], _lbool(r['permissive_inner']), _lnats(r['trace']), r['outcome'], r['permitted'])
+          for r in rows]
     L[-1] = L[-1].rstrip(',')
-    L += [']', '', '/-- every place that can reach a view callable or its permissive handle -/', 'def callSites : List CallSite := [']
+    L += [']', '']
+    # (C)
+    rows = pr.get('call_view') or []
+    L += ['def callViewProbe : List CallViewRow := [']
+    L += ['  ⟨[%s], %s, %s, %s⟩,' % (', '.join('(%d, %s)' % (k, _lbool(p)) for k, p in r['views']), _lbool(r['secure']),
+                                      _lnats(r['events']), _lnats(_out(r['out']))) for r in rows]
+    L[-1] = L[-1].rstrip(',')
+    L += [']', '']
+    # (D)
+    rows = pr.get('multiview') or []
+    L += ['def multiViewProbe : List MultiRow := [']
+    L += ['  ⟨[%s], %s, %s, %s, %s, %s, %s⟩,' % (', '.join('(%d, %d)' % (p, s) for p, s in r['views']),
+                                                  _lnats(r['call']['events']), _lnats(_out(r['call']['out'])),
+                                                  _lnats(r['permissive']['events']), _lnats(_out(r['permissive']['out'])),
+                                                  _lnats(r['permitted']['events']), _lnats(_out(r['permitted']['out']))) for r in rows]
+    L[-1] = L[-1].rstrip(',')
+    L += [']', '']
+    # (E)
+    rows = pr.get('tween') or []
+    L += ['/-- excview tween around a handler raising E (kind 1): (exception view kind 0 none / 1 response / 2 PredicateMismatch /',
+          '3 HTTPNotFound / 4 HTTPForbidden / 5 another exception (kind 2) / 9 = handler returns, has permissive handle, events',
+          '50 handler, 1 the exception view itself, 101 its permissive handle, outcome) -/',
+          'def tweenProbe : List (Nat × Bool × List Nat × List Nat) := [' +
+          ', '.join('(%d, %s, %s, %s)' % (r['kind'], _lbool(r['perm']), _lnats(r['events']), _lnats(_out(r['out']))) for r in rows) + ']', '']
+    # (F)
+    ph = pr.get('phases') or {}
+    L += ['/-- `PHASEn_CONFIG` constants (read from the imported pyramid.interfaces) -/',
+          'def phaseConstants : List (String × Int) := [' + ', '.join('(%s, %s)' % (_lstr(k), _lint(v)) for k, v in (ph.get('constants') or [])) + ']',
+          '/-- directive ↦ (the `order` of every action it queues, the `order` of the action(s) whose execution produced its effect) -/',
+          'def directiveOrders : List (String × List Int × List Int) := [' +
+          ', '.join('(%s, [%s], [%s])' % (_lstr(k), ', '.join(_lint(x) for x in v.get('orders', [])), ', '.join(_lint(x) for x in v.get('effect', [])))
+                    for k, v in sorted((ph.get('directives') or {}).items())) + ']', '']
+    # (G)
+    L += ['/-- (directive, derived callable under policy + default permission, rejects a `permission` argument, exception_only) -/',
+          'def specialDirectives : List (String × String × Bool × Bool) := [' +
+          ', '.join('(%s, %s, %s, %s)' % (_lstr(a), _lstr(b), _lbool(c), _lbool(d)) for a, b, c, d in (pr.get('directives') or [])) + ']', '']
+    # (H)
+    L += ['def secureDefaults : List (String × String) := [' + ', '.join('(%s, %s)' % (_lstr(a), _lstr(b)) for a, b in (pr.get('secure_defaults') or [])) + ']', '']
+    # (S)
+    L += ['/-- every place that can reach a view callable or its permissive handle (sorted) -/', 'def callSites : List CallSite := [']
     L += ['  ⟨%s⟩,' % ', '.join(_lstr(x) for x in s) for s in f['call_sites']]
-    L[-1] = L[-1].rstrip(',')
-    L += [']', '', 'def secureDefaults : List (String × String) := [' + ', '.join('(%s, %s)' % (_lstr(a), _lstr(b)) for a, b in f['secure_defaults']) + ']', '']
-    for key in sorted(f['shapes']):
-        nm = SHAPE_NAMES[key]
-        L += ['def %s : List String := [' % nm]
-        L += ['  %s,' % _lstr(x) for x in f['shapes'][key]]
-        L[-1] = L[-1].rstrip(',')
-        L += [']', '']
-    L += ['/-- (directive, permission it forces / defaults to, rejects a `permission` argument, forces exception_only) -/',
-          'def specialDirectives : List (String × String × Bool × Bool) := [']
-    L += ['  (%s, %s, %s, %s),' % (_lstr(a), _lstr(b), 'true' if c else 'false', 'true' if d else 'false') for a, b, c, d in f['special_directives']]
     L[-1] = L[-1].rstrip(',')
     L += [']', '', 'end Pyr.Gen.C05', '']
     return {'PyramidModel/Gen/C05.lean': '\n'.join(L)}
 
 
 if __name__ == '__main__':
-    import sys
     print(generate(sys.argv[1] if len(sys.argv) > 1 else '/repo/src')['PyramidModel/Gen/C05.lean'])
